@@ -43,4 +43,28 @@ def existUnminedAnswer (notFound : Nat) (r : Option Tx) : List Nat :=
   | some t => [1, 0, t.outs.length]
   | none => [0, notFound, 0]
 
+/-- TxStore.ExistsUtxo(out) as `existsOutPoint` reads it: 0 = found, unspent; 1 = found, spent; 2 = not found / error.
+    The unspent index of the wallet in use (then its credit), else the mined credits of that transaction hash,
+    else - only when the hash has no mined credit at all - the unmined credit of the outpoint. -/
+def existsUtxo (s : Store) (cur : Wid) (tx : TxId) (vout : Nat) : Nat :=
+  match AMap.get s.unspent (cur, tx, vout) with
+  | some blk =>
+    match AMap.get s.credits ⟨tx, blk, vout⟩ with
+    | some c => if c.spent then 2 else 0
+    | none => 2
+  | none =>
+    let cs := s.credits.filter (fun e => e.1.tx = tx)
+    match cs.find? (fun e => e.1.idx = vout) with
+    | some e => if e.2.spent then 1 else 2
+    | none =>
+      if cs.isEmpty then
+        match AMap.get s.pendCred (tx, vout) with
+        | some c => if c.spent then 2 else 0
+        | none => 2
+      else 2
+
+/-- what `existsOutPoint` reads of the result: [flags ≠ nil, error id] -/
+def existsUtxoAnswer (notFound : Nat) (r : Nat) : List Nat :=
+  if r < 2 then [1, 0] else [0, notFound]
+
 end MW.Model.ApiLedger
